@@ -16,6 +16,10 @@
     backup is restored (gunzip; opened by SQLite with integrity_check / replayed into an empty
     database) and projected; TraceBackup.tla validates the history (each state is Backup!Apply of
     its predecessor) and judges every backup with Backup.tla's CompleteP / SomeState / ConsistentP.
+    Witnesses of the negative controls GateDuringFileCopy and DumpInOneReadTxn, every round: Store.Backup
+    on the leader writing into a destination that, in the middle of the copy (binary: after the first
+    chunk of the main file; SQL: after the rows of the first table), runs three acknowledged transfers
+    and asks the store for a snapshot (WAL checkpoint) before it lets the copy continue.
 (B) on a quiescent small database the leader->follower byte stream of a forwarded backup
     (binary and SQL, compressed and not) is cut after p bytes, FIN and RST, for sampled p (quick)
     or every p (thorough); a response with status 200 that is read to its end without error and
@@ -32,24 +36,36 @@ def b(x):
     return "true" if x else "false"
 
 
+def twice(f, *a, **kw):
+    """The machine is shared: a TLC or harness run that was killed or starved is repeated once before the check gives up."""
+    try:
+        return f(*a, **kw)
+    except vlib.Undecided as e:
+        vlib.log("retrying after:", str(e)[:300])
+        return f(*a, **kw)
+
+
 def run(ctx):
     # (A) runs beside the harness: both are dominated by start-up and waiting, not by CPU
     failure = []
 
     def design():
         try:
-            vlib.tlc_mc(ctx, "Backup", ctx.pick("Backup_mc.cfg", "Backup_mc2.cfg"), workers=ctx.pick(2, 3), timeout=2400)
+            twice(vlib.tlc_mc, ctx, "Backup", ctx.pick("Backup_mc.cfg", "Backup_mc3.cfg"), workers=ctx.pick(2, 3), timeout=2400)
             for sw, inv in NEG:
-                vlib.tlc_neg(ctx, "Backup", "Backup_neg_%s.cfg" % sw, expect=inv, workers=1, timeout=900)
+                twice(vlib.tlc_neg, ctx, "Backup", "Backup_neg_%s.cfg" % sw, expect=inv, workers=1, timeout=900)
         except BaseException as e:      # re-raised in the main thread
             failure.append(e)
     th = threading.Thread(target=design)
     th.start()
     try:
         tr = os.path.join(ctx.scratch, "backup.ndjson")
-        p = ctx.run_harness(["backup-trace", "-out", tr, "-dir", ctx.sub("bk"), "-rounds", str(ctx.pick(12, 80)),
-                             "-secs", str(ctx.pick(45, 400)), "-wps", str(ctx.pick(60, 40)), "-writers", "6",
-                             "-cuts", str(ctx.pick(40, 0))], timeout=ctx.pick(900, 3000))
+        p = twice(ctx.run_harness, ["backup-trace", "-out", tr, "-dir", ctx.sub("bk"), "-rounds", str(ctx.pick(12, 80)),
+                             "-secs", str(ctx.pick(45, 330)), "-wps", str(ctx.pick(60, 40)), "-writers", "6",
+                             "-cuts", str(ctx.pick(40, 0)),
+                             # bounds the whole inter-node transfer of a forwarded backup: a client that misses the end of
+                             # the stream then costs seconds per request, not the default 30 s
+                             "-fwdtimeout", os.environ.get("VERIF_C21_FWDTIMEOUT", "8s")], timeout=ctx.pick(1200, 3000))
     except BaseException:
         th.join()
         raise
@@ -69,6 +85,8 @@ def judge(ctx, p, tr):
         raise vlib.Undecided("backups under load did not run: %s" % ctx.cov["driver"])
     if st["CutFired"] < ctx.pick(200, 2000):
         raise vlib.Undecided("stream cuts did not run: %s" % ctx.cov["driver"])
+    if st["WitnessPaused"] < 4:
+        raise vlib.Undecided("the paused-copy witnesses did not run: %s" % ctx.cov["driver"])
     if min(st["ByVia"].get(v, 0) for v in ("leader", "follower", "local")) < 10:
         raise vlib.Undecided("a backup path was not exercised: %s" % st["ByVia"])
     rows = vlib.read_nd(tr)
@@ -93,7 +111,7 @@ def judge(ctx, p, tr):
         if ev == "cut":
             return "backup:%s:cut=%s:compress=%s:fmt=%s:at=%s" % (name, bad.get("kind"), b(bad.get("compress")), bad.get("fmt"), bad.get("class"))
         return "backup:%s:%s" % (name or "rejected", ev)
-    vlib.trace_check(ctx, "TraceBackup", "TraceBackup.cfg", tr, "backup", key_fn=key, selftest=corrupt, timeout=2400)
+    twice(vlib.trace_check, ctx, "TraceBackup", "TraceBackup.cfg", tr, "backup", key_fn=key, selftest=corrupt, timeout=2400)
     nbk = sum(1 for r in rows if r.get("ev") in ("bk", "ref"))
     ncut = sum(1 for r in rows if r.get("ev") == "cut")
     ctx.add("traces_validated_against_impl", nbk + ncut)
@@ -107,7 +125,8 @@ def judge(ctx, p, tr):
             c = combos.setdefault(k, {"ok": 0, "error": 0})
             c["ok" if r["status"] == 200 and r["clean"] else "error"] += 1
     ctx.cov["combinations"] = combos
-    if len(combos) < 24 or min(c["ok"] for c in combos.values()) < 1:
+    if len(combos) < 24 or sum(1 for c in combos.values() if c["ok"] > 0) < 22:
+        # overlapping binary backups refuse each other (gate held): with few rounds a combination may have had no success
         raise vlib.Undecided("not every format/flag/via combination produced a backup: %s" % combos)
     bks = [r for r in rows if r.get("ev") == "bk"]
     ctx.sample(bks[7:11])
